@@ -259,4 +259,90 @@ class IncludeEngine(Engine):
     return {'obs': obs, 'fails': fails[:3], 'nontrivial': multi or missing is not None, 'tags': tags}
 
 
-ENGINES = [IncludeEngine()]
+class PackageNameEngine(Engine):
+  """package-relative names ('pkg/sub/file.gin' resolved through the Python path by gin.resource_reader) and names that
+  merely LOOK package-relative.  Real directories in a temp dir, real sys.path; implementation only (importlib is not
+  modelled).  Expected outcome of each scenario is stated from the property: found in the first location that has it,
+  or an IOError naming the locations and nothing applied."""
+  name = 'package-names'
+  model = False
+
+  def budget(self, tier):
+    return 0
+
+  def corpus(self):
+    return [{'scenario': s} for s in ('regular-package', 'namespace-dir-missing-file', 'namespace-dir-later-location',
+                                      'builtin-module-name', 'frozen-module-name', 'nowhere')]
+
+  def gen(self, rng, tier):
+    return self.corpus()[0]
+
+  def impl(self, case):
+    import os
+    import shutil
+    import sys
+    import tempfile
+    sc = case['scenario']
+    d = tempfile.mkdtemp(prefix='ginverif_pkg_')
+    old_cwd, old_path = os.getcwd(), list(sys.path)
+    fails = []
+    try:
+      os.chdir(d)
+      sys.path.insert(0, d)
+      gin = C.fresh_gin()
+
+      @gin.configurable
+      def pf(value='unset'):
+        return value
+
+      def write(path, text):
+        os.makedirs(os.path.dirname(os.path.join(d, path)) or d, exist_ok=True)
+        with open(os.path.join(d, path), 'w') as f:
+          f.write(text)
+      expect = None            # value of pf.value after the parse, or 'IOError'
+      name = None
+      if sc == 'regular-package':
+        write('c14pkg/__init__.py', '')
+        write('c14pkg/conf/__init__.py', '')
+        write('elsewhere/c14pkg/conf/a.gin', "pf.value = 'wrong place'\n")
+        os.makedirs(os.path.join(d, 'run'))
+        write('c14pkg/conf/a.gin', "pf.value = 'package'\n")
+        os.chdir(os.path.join(d, 'run'))          # not readable relative to the current directory: only through the package
+        name, expect = 'c14pkg/conf/a.gin', 'package'
+      elif sc == 'namespace-dir-missing-file':
+        os.makedirs(os.path.join(d, 'c14confs'))   # a plain directory reachable from sys.path: a namespace package
+        name, expect = 'c14confs/typo.gin', 'IOError'
+      elif sc == 'namespace-dir-later-location':
+        os.makedirs(os.path.join(d, 'c14confs'))
+        write('later/c14confs/a.gin', "pf.value = 'later location'\n")
+        gin.add_config_file_search_path(os.path.join(d, 'later'))
+        name, expect = 'c14confs/a.gin', 'later location'
+      elif sc == 'builtin-module-name':
+        write('x.gin', "pf.value = 'a file nobody asked for'\n")
+        name, expect = 'time/x.gin', 'IOError'
+      elif sc == 'frozen-module-name':
+        write('x.gin', "pf.value = 'a file nobody asked for'\n")
+        name, expect = 'os/x.gin', 'IOError'
+      else:
+        name, expect = 'c14nowhere/x.gin', 'IOError'
+      try:
+        gin.parse_config_file(name)
+        got = pf()
+      except OSError:
+        got = 'IOError'
+      except Exception as e:  # pylint: disable=broad-except
+        got = 'raised %s: %s' % (type(e).__name__, str(e)[:120])
+      if got != expect:
+        fails.append(('package-relative-name', 'scenario %s: parse_config_file(%r) gave %r, the property requires %r' % (sc, name, got, expect)))
+      elif expect == 'IOError' and pf() != 'unset':
+        fails.append(('missing-file-applied-something', '%s: pf.value = %r' % (sc, pf())))
+    finally:
+      os.chdir(old_cwd)
+      sys.path[:] = old_path
+      for m in [m for m in sys.modules if m.startswith(('c14pkg', 'c14confs', 'c14nowhere'))]:
+        del sys.modules[m]
+      shutil.rmtree(d, ignore_errors=True)
+    return {'obs': T('Done'), 'fails': fails, 'nontrivial': True, 'tags': [sc]}
+
+
+ENGINES = [IncludeEngine(), PackageNameEngine()]
